@@ -212,7 +212,6 @@ def coll_run_history(hist):
             # the operands are untouched
             if len(coll) != n_self:
                 problems.append(("concat_changed_operand", {"len": len(coll), "expected": n_self}, "concat"))
-            coll2._sort_key, coll2._sort_reverse = coll2._sort_key, coll2._sort_reverse
             newref = RefColl()
             for _, s in ref.items:
                 newref.add(s)
@@ -265,8 +264,10 @@ def observe(coll, ref, P, step, kind):
 
 def coll_key(coll, ref, P):
     order = {id(s): i for i, s in enumerate(P)}
-    return jhash([[k, order[id(s)]] for k, s in coll._streams.items()] + [repr(ref.sort), bool(coll._needs_sort),
-                 [order[id(s)] for s in coll._sorted_cache], [p.t_supply for p in P]])
+    # the state as far as the object lets it be seen: keys (through repr), members in iteration order, and - if the class still keeps
+    # them under these names - its private dirty flag and cached order (state matching only gets finer with them, never wrong without)
+    private = [bool(getattr(coll, "_needs_sort", False)), [order.get(id(s), -1) for s in (getattr(coll, "_sorted_cache", None) or [])]]
+    return jhash([repr(coll), [order[id(s)] for s in coll], [[k, order[id(s)]] for k, s in ref.items], repr(ref.sort), private, [p.t_supply for p in P]])
 
 
 def coll_explore(tier, inst, shard, nshards):
